@@ -134,6 +134,9 @@ def classify(pid, pred, cj):
             detail = "hpack-decode-error-after-header-table-size-setting" if tab else "hpack-decode-error"
         elif steps and steps[-1].get("err"):
             detail = re.sub(r"[^a-z]+", "-", steps[-1]["err"].lower())[:60].strip("-")
+    elif pid == "C09" and pred == 1 and any(
+            sum(1 for s in (o.get("settings") or []) if s[0] == 4) > 1 for o in ops if o.get("kind") == "settings"):
+        detail = "two-initial-window-sizes-in-one-settings-frame"
     elif pid == "C09" and pred == 3:
         detail = "max-frame-size-lowered-while-queued"
     elif pid == "C10" and pred == 1:
@@ -146,7 +149,7 @@ def classify(pid, pred, cj):
     return "%s/%s" % (name, detail)
 
 
-def run_property(ctx, pid, cmd, prop_file, level_extra):
+def run_property(ctx, pid, cmd, prop_file, level_extra, e2e=0):
     ob_failed = []
     ok, msg = ctx.tables(GROUP)
     if not ok:
@@ -180,6 +183,8 @@ def run_property(ctx, pid, cmd, prop_file, level_extra):
             inner = os.path.join(ctx.work, "replay_in.json")
             json.dump(rp.get("replay", rp), open(inner, "w"))
             extra = ["-replay", inner]
+        if e2e and not ctx.replay:
+            extra = extra + ["-e2e", str(e2e if ctx.tier == "quick" else 10 * e2e)]
         m, cases, mbad, pbad, errors = runner.run("main", extra)
         meta = m or {}
         ob_failed.extend(errors)
@@ -213,6 +218,13 @@ def run_property(ctx, pid, cmd, prop_file, level_extra):
         ctx.violation("preface-correspondence", {"preface_reads": pcs[i]["preface_reads"],
                       "unchecked": "correspondence forward_preface(model)/forwardPreface"}, False,
                       "model and implementation of forwardPreface differ: %s" % json.dumps(pcs[i])[:300])
+    for r in (meta.get("e2e") or []):
+        if not r.get("ok"):
+            cj = next((c for c in cases if c.get("name") == r.get("name")), {})
+            ctx.violation("e2e-differs-from-rig", dict(strip_case(cj), e2e=r), True,
+                          "played through h2.Config.Proxy (TLS, ALPN h2, the two relay goroutines) the history %s gives: %s"
+                          % (r.get("name"), r.get("problem")))
+            break
     if mbad and not pbad:
         idx = min(mbad, key=lambda i: len(cases[i].get("ops") or []))
         small = strip_case(cases[idx])
@@ -243,6 +255,8 @@ def run_property(ctx, pid, cmd, prop_file, level_extra):
         "unchecked_obligations": ob_failed,
         "evaluations": int(meta.get("frames", 0)) + int(meta.get("preface_cases", 0)),
         "preface_segmentations": int(meta.get("preface_cases", 0)),
+        "end_to_end_histories_through_Config_Proxy": int(meta.get("e2e_played", 0)),
+        "end_to_end_failures": int(meta.get("e2e_failed", 0)),
         "histories": int(meta.get("cases", 0)),
         "distinct_nontrivial": nontriv,
         "rule": "histories of raw frames (<=4 streams, both directions, windows 0..70000 favouring small values, SETTINGS up/down, "
